@@ -966,6 +966,35 @@ class Interp:
                     if it == args[0]:
                         return Const(i)
                 return Unknown('index')
+            if recv.kind == 'list':
+                if name == 'reverse' and not args and not kwargs:
+                    recv.items.reverse()
+                    return Const(None)
+                if name == 'copy' and not args:
+                    return Tup(list(recv.items), 'list')
+                if name == 'clear' and not args:
+                    del recv.items[:]
+                    return Const(None)
+                if name == 'insert' and len(args) == 2 and isinstance(args[0], Const) and isinstance(args[0].v, int):
+                    recv.items.insert(args[0].v, args[1])
+                    return Const(None)
+                if name == 'pop' and len(args) <= 1 and (not args or (isinstance(args[0], Const) and isinstance(args[0].v, int))):
+                    k_ = args[0].v if args else -1
+                    if recv.items and -len(recv.items) <= k_ < len(recv.items):
+                        return recv.items.pop(k_)
+                    raise AbsRaise('IndexError', node)
+                if name == 'sort' and not args and set(kwargs) <= {'reverse'} and all(isinstance(i_, Const) and isinstance(i_.v, (int, float, str)) for i_ in recv.items) \
+                        and isinstance(kwargs.get('reverse', Const(False)), Const):
+                    try:
+                        recv.items.sort(key=lambda c_: c_.v, reverse=bool(kwargs.get('reverse', Const(False)).v))
+                        return Const(None)
+                    except TypeError:
+                        pass
+                if name in ('reverse', 'sort', 'insert', 'pop', 'remove', 'clear', 'extend', 'append', '__setitem__', '__delitem__', '__iadd__', '__imul__'):
+                    # a mutation of a list the analysis holds, in a form it does not model: nothing read from the list afterwards would be right
+                    raise AnalysisError('list.%s(...) at line %d is not followed: the list it changes is no longer known' % (name, getattr(node, 'lineno', 0)))
+            if recv.kind == 'set' and name in ('add', 'discard', 'remove', 'update', 'clear', 'pop', 'difference_update', 'intersection_update'):
+                raise AnalysisError('set.%s(...) at line %d is not followed: the set it changes is no longer known' % (name, getattr(node, 'lineno', 0)))
         if isinstance(recv, DictV):
             if name == 'get':
                 v = recv.get(args[0])
@@ -1436,8 +1465,10 @@ class Interp:
         # an in-place operation on an array is seen through every alias of that array (another local bound by a plain
         # copy, an element of an argument tuple, the caller's variable when a helper shifts its argument in place):
         # the old abstract value forwards to the new one
+        if getattr(cur, 'is_array', False) and hasattr(self.dom, 'mark_array'):
+            r = self.dom.mark_array(r)          # still an array after the operation
         if isinstance(st.target, ast.Name) and isinstance(cur, Value) and r is not cur and type(cur).__module__ != __name__ \
-                and type(cur).__name__ not in ('Sym', 'Dim', 'Scalar') and getattr(self.dom, 'alias_inplace', True):
+                and (type(cur).__name__ not in ('Sym', 'Dim', 'Scalar') or getattr(cur, 'is_array', False)) and getattr(self.dom, 'alias_inplace', True):
             # (symbolic scalars are immutable Python numbers: `k += 1` rebinds k only)
             self.fwd[id(cur)] = (cur, r)
         self.assign(st.target, r, frame, st, aug=True)
